@@ -48,7 +48,8 @@ AXf == [simple |-> {Eff, Y([k |-> "var", n |-> "k"]), PullIt},
         inits |-> {None}, posts |-> {None}, conds |-> {T0}, ifinits |-> {None},
         kinds |-> {"if", "switch", "range"}, jumps |-> {"break", "continue", "return"},
         ranges |-> {[k |-> "range", id |-> 0, kind |-> "iter", xf |-> "var", kf |-> kf, vf |-> "none", wrap |-> "none", body |-> <<>>] : kf \in {"def", "none"}}]
-APanic == [ACtl EXCEPT !.simple = @ \cup {[k |-> "panic"], Y([k |-> "b1", e |-> [k |-> "lit", v |-> 7]])}]
+APanic == [ACtl EXCEPT !.simple = @ \cup {[k |-> "panic"], Y([k |-> "b1", e |-> [k |-> "lit", v |-> 7]])},
+                        !.posts = @ \cup {Y([k |-> "b1", e |-> [k |-> "lit", v |-> 7]])}]     \* a panicking (yielding) post statement
 \* the control-flow family with every switch form: default first / no default, type switch, tag-less switch
 \* effects everywhere, effectful yield expressions (C02: the interleaving is the observation)
 ObsA == [k |-> "obs", id |-> 0, n |-> "a"]
@@ -83,7 +84,7 @@ AOptX == [AOpt EXCEPT !.simple = {IncA, [k |-> "unsup", u |-> "clo-loopvar", id 
 AByX == [ABy EXCEPT !.simple = {IncA, EffX([k |-> "pk", n |-> "a"]),
                                 EffX([k |-> "idi", n |-> "a"]), EffX([k |-> "unn", n |-> "a"]), EffX([k |-> "perr", n |-> "a"]), EffX([k |-> "vari", n |-> "a"]), EffX([k |-> "idg", n |-> "a"]), EffX([k |-> "ln"]), EffX([k |-> "cnv", n |-> "a"]), EffX([k |-> "gets"])}]
 \* constructs outside the supported subset (C12): a small control alphabet plus exactly one such construct
-UKinds == {"lbreak", "lcont", "goto", "select", "selbrk", "defer", "fallyield", "ifinit", "rparr", "rfunc", "rtparam", "lrange", "parenyield", "rparrdefer",
+UKinds == {"lbreak", "lcont", "goto", "select", "selbrk", "defer", "fallyield", "ifinit", "rparr", "rfunc", "rtparam", "lrange", "parenyield", "rparrdefer", "rparrbrk", "rparrcnt", "elifinit",
            "clo-lbreak", "clo-goto", "clo-select", "clo-defer", "clo-rfunc", "clo-rparr", "clo-fall", "clo-selbrk", "clo-lrange"}
 AUnsup == [simple |-> {Eff, Y(VarA)} \cup {[k |-> "unsup", u |-> u, id |-> 0] : u \in UKinds},
            inits |-> {None}, posts |-> {None, Y(VarA)}, conds |-> {T0}, ifinits |-> {None},
